@@ -1,5 +1,5 @@
 """C05 — a resize writes every destination pixel and nothing else (DESIGN §4 C05)."""
-from ..engines import flow, views, row_coverage, index_rules, loadwidth
+from ..engines import flow, views, row_coverage, index_rules, loadwidth, storewidth
 from ..facts import CheckError
 from ..progs import programs
 
@@ -95,5 +95,6 @@ def run(rep, tier):
         rep.call(index_rules.cropped_row_slices, rep, prog, "C05.view-rect")
         from . import c12
         rep.call(c12.skip_arm, rep, prog, "C05.fallible-write")
+        rep.call(storewidth.check, rep, prog, "C05.storewidth", storewidth.FLOOR.get(cfg, 40))
         if cfg.startswith("x86"):
             rep.call(loadwidth.chunk_store, rep, prog, "C05.chunk-store")
